@@ -18,7 +18,8 @@ def _run_tests(files, filt, tag, env=None, timeout=3600, features=None):
     if features:
         cmd += ["--features", features]
     cmd += ["--", filt, "--test-threads", str(common.ncpu())]
-    e = {"CARGO_NET_OFFLINE": "true", "CARGO_TERM_COLOR": "never", "RUST_BACKTRACE": "0"}
+    e = {"CARGO_NET_OFFLINE": "true", "CARGO_TERM_COLOR": "never", "RUST_BACKTRACE": "0",
+         "CARGO_PROFILE_TEST_OPT_LEVEL": "3"}
     e.update(env or {})
     rc, out, err, wall = common.run(cmd, cwd=ov, env=e, timeout=timeout)
     text = out + "\n" + err
